@@ -9,9 +9,11 @@ struct GCase {
   SImg g;          // kind 2/3/4, stops, geom, repeat, transform
   int wide = 0;    // destination rgba_float instead of a8r8g8b8
   int w = 8, h = 1, sx = 0, sy = 0;
+  int over = 0;    // composite with OVER onto a random destination instead of SRC
   template <class A> void io(A &a) {
     a.f("g", g);
     a.f("wide", wide);
+    a.f("over", over);
     a.f("w", w);
     a.f("h", h);
     a.f("sx", sx);
@@ -85,6 +87,58 @@ static GCase gen_case() {
   c.h = (int)R(1, 3);
   c.sx = (int)R(-5, 20);
   c.sy = (int)R(-3, 6);
+  c.over = coin(30);
+  SImg &g = c.g;
+  switch (pickw({82, 6, 6, 6})) {
+  case 1: {
+    // narrow and very tall requests over an almost horizontal linear gradient: whether "every row looks the same" is a
+    // question about the drift over the whole height, not over the width (seeded C13c)
+    g.kind = 2;
+    g.has_transform = 0;
+    c.w = (int)R(1, 3);
+    c.h = (int)R(300, 4000);
+    int64_t x1 = gcoord(10), y1 = gcoord(10);
+    g.geom = {x1, y1, x1 + R(1, 12) * 65536 + R(0, 65535), y1 + (coin(50) ? 1 : -1) * R(1, 400)};
+    break;
+  }
+  case 2: {
+    // geometry tens of thousands of pixels away from the request (but inside the representable range): intermediate
+    // sums of the per-scanline setup no longer fit 32 bits (seeded C13d)
+    g.has_transform = 1;
+    int64_t tx = (coin(50) ? 1 : -1) * R(16400, 29000), ty = coin(60) ? R(-20, 20) : (coin(50) ? 1 : -1) * R(16400, 29000);
+    g.m = {65536, 0, tx * 65536, 0, 65536, ty * 65536, 0, 0, 65536};
+    if (g.stops.size() > 3) g.stops.resize(3);
+    if (g.kind == 3) {
+      // radii growing by 25-40 px keep |t| in the hundreds
+      g.geom[5] = g.geom[4] + R(25, 40) * 65536;
+      if (coin(60)) {
+        g.geom[2] = g.geom[0];
+        g.geom[3] = g.geom[1];
+      }
+    } else if (g.kind == 2) {
+      g.geom[2] = g.geom[0] + (coin(50) ? 1 : -1) * R(30, 60) * 65536;
+    }
+    if (g.repeat == 0) g.repeat = (int)R(1, 3);
+    break;
+  }
+  case 3: {
+    // internally tangent circles: |c2 - c1| == |r2 - r1| exactly, so the quadratic degenerates (a == 0) and half of the
+    // plane has no admissible parameter; with OVER those pixels must keep the destination (seeded C13e)
+    g.kind = 3;
+    int64_t k = R(1, 12) * 65536 / 4;
+    int64_t r1 = coin(30) ? 0 : R(0, 20) * 65536, cx = gcoord(20), cy = gcoord(6);
+    int sgn = coin(50) ? 1 : -1;
+    if (coin(50)) g.geom = {cx, cy, cx + sgn * 4 * k, cy, r1, r1 + 4 * k};
+    else g.geom = {cx, cy, cx + sgn * 3 * k, cy + 4 * k, r1, r1 + 5 * k};  // 3-4-5
+    if (coin(70)) g.repeat = (int)R(1, 3);
+    if (coin(60))
+      for (auto &st : g.stops) st.color |= 0xff000000;
+    c.over = coin(80);
+    if (coin(50)) g.has_transform = 0;
+    break;
+  }
+  default: break;
+  }
   return c;
 }
 static GCase gen_unsafe() {
@@ -214,7 +268,21 @@ static Verdict run_case(const GCase &c) {
   Bits db = gen_bits_fixed(fmt_index(c.wide ? PIXMAN_rgba_float : PIXMAN_a8r8g8b8), c.w, c.h, 77);
   db.fill = FILL_RANDOM;
   auto dst = make_image(db);
-  pixman_image_composite32(PIXMAN_OP_SRC, src.im, nullptr, dst->im, c.sx, c.sy, 0, 0, 0, 0, c.w, c.h);
+  // the destination before drawing, as reals on the 0..255 scale (a, r, g, b)
+  std::vector<real> before((size_t)c.w * c.h * 4);
+  for (int y = 0; y < c.h; y++)
+    for (int x = 0; x < c.w; x++) {
+      real *o = &before[((size_t)y * c.w + x) * 4];
+      if (c.wide) {
+        const float *q = (const float *)dst->rowp(y) + 4 * x;
+        o[0] = q[3] * 255.0L, o[1] = q[0] * 255.0L, o[2] = q[1] * 255.0L, o[3] = q[2] * 255.0L;
+      } else {
+        uint32_t p = raw_get(dst->rowp(y), 32, x);
+        o[0] = p >> 24, o[1] = (p >> 16) & 0xff, o[2] = (p >> 8) & 0xff, o[3] = p & 0xff;
+      }
+    }
+  pixman_image_composite32(c.over ? PIXMAN_OP_OVER : PIXMAN_OP_SRC, src.im, nullptr, dst->im, c.sx, c.sy, 0, 0, 0, 0, c.w, c.h);
+  if (c.over) v.label("op_over");
   // transform (real arithmetic on the exact fixed-point entries)
   real m[9] = {1, 0, 0, 0, 1, 0, 0, 0, 1};
   if (g.has_transform)
@@ -245,7 +313,12 @@ static Verdict run_case(const GCase &c) {
   real wmin = 1;
   for (size_t i = 1; i < g.stops.size(); i++)
     if (g.stops[i].x > g.stops[i - 1].x) wmin = std::min(wmin, (real)(g.stops[i].x - g.stops[i - 1].x) / 65536);
-  {
+  if (g.repeat == PIXMAN_REPEAT_REFLECT) {
+    // the intervals that straddle the mirror points: [-x0, x0] around even and [xl, 2 - xl] around odd integers
+    real w0 = 2 * (real)g.stops[0].x / 65536, w1 = 2 * (real)(65536 - g.stops.back().x) / 65536;
+    if (w0 > 0) wmin = std::min(wmin, w0);
+    if (w1 > 0) wmin = std::min(wmin, w1);
+  } else {
     real wrap = (real)(g.stops[0].x + 65536 - g.stops.back().x) / 65536;
     if (wrap > 0) wmin = std::min(wmin, wrap);
   }
@@ -304,11 +377,16 @@ static Verdict run_case(const GCase &c) {
         gv[2] = (got >> 8) & 0xff;
         gv[3] = got & 0xff;
       }
+      const real *bf = &before[((size_t)y * c.w + x) * 4];
       if (none_valid) {
-        // no admissible t: transparent
-        for (int k = 0; k < 4; k++)
-          if (gv[k] > 1.001L) v.fail(fmt("pixel (%d,%d): no admissible parameter (must be transparent) but channel %d is %.2Lf", x, y, k, gv[k]));
+        // no admissible t: transparent (SRC), i.e. the destination is left exactly as it was (OVER)
+        for (int k = 0; k < 4; k++) {
+          if (!c.over && gv[k] > 1.001L) v.fail(fmt("pixel (%d,%d): no admissible parameter (must be transparent) but channel %d is %.2Lf", x, y, k, gv[k]));
+          if (c.over && fabsl(gv[k] - bf[k]) > 1e-3L)
+            v.fail(fmt("pixel (%d,%d): no admissible parameter, so OVER must leave the destination alone, but channel %d went from %.3Lf to %.3Lf", x, y, k, bf[k], gv[k]));
+        }
         checked++;
+        v.label("pixel_without_admissible_parameter");
         continue;
       }
       // the parameter itself is carried in 16.16 and evaluated in single precision: allow a relative error as well
@@ -331,24 +409,26 @@ static Verdict run_case(const GCase &c) {
           hi[k] = std::max(hi[k], cv[k]);
         }
       };
-      for (int k = 0; k <= 8; k++) take(tlo + (thi - tlo) * k / 8);
+      // break points of the piecewise function inside [tlo,thi]: images of the stops and of 0/1 under the repeat
+      std::vector<real> bp{tlo, thi};
       for (auto &s : g.stops) {
         real xs = s.x / 65536.0L;
         for (real base = floorl(tlo) - 1; base <= thi + 1; base += 1)
-          for (real cand : {base + xs, base + 1 - xs, base - xs}) {
-            if (cand >= tlo && cand <= thi) {
-              take(cand - 1e-7L);
-              take(cand);
-              take(cand + 1e-7L);
-            }
-          }
+          for (real cand : {base + xs, base + 1 - xs, base - xs})
+            if (cand >= tlo && cand <= thi) bp.push_back(cand);
       }
       for (real b0 : {0.0L, 1.0L})
-        if (b0 >= tlo && b0 <= thi) {
-          take(b0 - 1e-7L);
-          take(b0);
-          take(b0 + 1e-7L);
-        }
+        if (b0 >= tlo && b0 <= thi) bp.push_back(b0);
+      std::sort(bp.begin(), bp.end());
+      // both sides of every break point, and the inside of every piece: between two stops the premultiplied colour is
+      // the product of two linear functions, so its extreme value can lie strictly inside the piece
+      for (size_t i = 0; i < bp.size(); i++) {
+        take(bp[i] - 1e-7L);
+        take(bp[i]);
+        take(bp[i] + 1e-7L);
+        if (i + 1 < bp.size() && bp[i + 1] > bp[i])
+          for (int k = 1; k < 16; k++) take(bp[i] + (bp[i + 1] - bp[i]) * k / 16);
+      }
       if (any) {
         skipped++;
         continue;
@@ -360,9 +440,21 @@ static Verdict run_case(const GCase &c) {
         skipped++;
         continue;
       }
-      real tol = 1.01L + cond * 255 * 2.4e-7L;
+      real tol = 1.01L + cond * 255 * 4.8e-7L;  // ~8 single-precision roundings of terms of magnitude cond
+      if (c.over) {
+        // OVER: s + d * (1 - sa), with s and sa anywhere in their reference ranges (one more rounding step in 8 bits)
+        real alo = std::max<real>(0, lo[0] - tol) / 255, ahi = std::min<real>(255, hi[0] + tol) / 255;
+        for (int k = 0; k < 4; k++) {
+          lo[k] += bf[k] * (1 - ahi);
+          hi[k] += bf[k] * (1 - alo);
+        }
+        tol += 0.51L;
+      }
+      // a colour channel is the product of two such interpolants (alpha and the non-premultiplied colour): twice the
+      // single-precision term
+      real tolc = tol + cond * 255 * 4.8e-7L;
       for (int k = 0; k < 4 && v.ok; k++)
-        if (gv[k] < lo[k] - tol || gv[k] > hi[k] + tol)
+        if (gv[k] < lo[k] - (k ? tolc : tol) || gv[k] > hi[k] + (k ? tolc : tol))
           v.fail(fmt("%s gradient repeat %d pixel (%d,%d): channel %d is %.2Lf, reference over t in [%.6Lf,%.6Lf] is [%.2Lf,%.2Lf] (%s destination)", g.kind == 2 ? "linear" : g.kind == 3 ? "radial" : "conical",
                      g.repeat, x, y, k, gv[k], tlo, thi, lo[k], hi[k], c.wide ? "float" : "8-bit"));
       checked++;
